@@ -94,6 +94,7 @@ def run(chk, repo, tier):
     C04b.run_p13_p15(chk, repo)
     C04b.run_p16(chk, repo)
     C04b.run_p17_p18(chk, repo)
+    C04b.run_p19_p20(chk, repo)
 
     tm = repo.module(f'{NM}.records.theta_record')
     om = repo.module(f'{NM}.records.omega_record')
